@@ -105,6 +105,11 @@ def constructed():
                 t = rng.choice((s, 0, 18, rng.randrange(0, 19)))
                 for op in OPS:
                     out.append("%s * %s %s" % (op, G.fD(c, s), G.fD(d, t)))
+    # identical operands (x op x; the driver also runs `&x op &x` with both references to one object)
+    for s in range(19):
+        for c in (0, 1, -1, 5, P10[s], M, -M, M // 2, M // 2 + 1, rng.randrange(-M, M), G.small_coeff(rng, 60)):
+            for op in OPS:
+                out.append("%s * %s %s" % (op, G.fD(c, s), G.fD(c, s)))
     # limb carries and borrows: low 64-bit limbs that sum to 2^64 - 1 / 2^64 / 2^64 + 1, low limbs ordered against the
     # high limbs; all-ones / single-bit / empty limbs
     for a, b in G.limb_carry_pairs(rng, 80):
